@@ -31,6 +31,8 @@ func checkC09(e *RunEnv) *CheckResult {
 	seed2 := append(append([]Step{}, seed1...), Write("d/x", v2("d/x")), Run("add", "d/x"), Write("d/x", "d/x v3\n"), Delete("d/y"), Rmdir("ad"), Run("rm", "g"), Write("n", v1("n")), Run("add", "n"))
 	spec := &Spec{
 		Seeds: []Seed{{"all-committed", seed1}, {"mixed", seed2},
+			// every tracked path removed (rm): the staging area is empty, HEAD is not
+			{"everything-unstaged", append(append([]Step{}, seed1...), Run("rm", "d", "ad", "d.c", "a(b", "g", "d0", "big"))},
 			// a committed directory replaced by a file of the same name, and staged
 			{"dir-becomes-file", append(append([]Step{}, seedS0()...), Write("d/x/y", v1("d/x/y")), Write("g", v1("g")), Run("add", "d", "g"), Run("commit", "-m", "c1"), Write("d/x", "now a file\n"), Run("add", "d/x"))}},
 		Depth: e.pick(3, 4),
